@@ -350,6 +350,14 @@ StDistinct(q, rows) == IF q.distinct THEN ArrV(Dedup(rows)) ELSE ArrV(rows)
 \* canonical choice; the engine may return any sequence satisfying OrderOK
 StOrder(q, rows) == IF q.order = <<>> THEN ArrV(rows) ELSE ArrV(SortStable(rows, q.order))
 
+\* the OFFSET / LIMIT arithmetic of exec as coded (m, n = -1: clause absent)
+WindowModel(s, m, n) ==
+    LET offset == IF m # -1 THEN m ELSE 0
+        limit  == IF n # -1 THEN n ELSE Len(s)
+    IN  IF offset >= Len(s) THEN <<>>
+        ELSE LET t == SubSeq(s, offset + 1, Len(s))
+             IN  IF limit < Len(t) THEN SubSeq(t, 1, limit) ELSE t
+
 StWindow(q, rows) == ArrV(Window(rows, q.offset, q.limit))
 
 Pipeline(q, data, rows) ==
